@@ -453,6 +453,7 @@ def oracle(script, impl):
     nfs_wait = {}   # nfs clients whose size announcement is still to come
     defer, owner, lastmask, pend = 0, None, {}, {}   # pointer delivery: defer time, grabbing client, coalesced
     nfs_clients = set()
+    cut_pending, last_sizes = False, None
     for (op, sure), ob in zip(ops, impl):
         t = op.split()
         if "ORACLE" in ob:
@@ -469,6 +470,7 @@ def oracle(script, impl):
             if ob != "ok":
                 continue
             nW, nH = int(t[1]), int(t[2])
+            last_sizes = None
             for i in list(dims):
                 if dims[i] == (W, H):
                     dims[i] = (nW, nH)
@@ -480,6 +482,8 @@ def oracle(script, impl):
                 pass
             W, H = nW, nH
         elif t[0] in ("leave", "scalecut"):
+            if t[0] == "scalecut":
+                cut_pending = True
             dims.pop(int(t[1]), None)
             pend.pop(int(t[1]), None)
             lastmask.pop(int(t[1]), None)
@@ -526,6 +530,11 @@ def oracle(script, impl):
                 return "client picture differs from the reference box filter after it requested everything: %s -> %s" % (op, ob)
         elif t[0] == "geom":
             parts = ob.split()[1:]
+            sizes_now = set(p.split(":")[0] for p in parts)
+            if cut_pending and last_sizes is not None and not sizes_now <= last_sizes:
+                return "a SetScale message that was never completely received created a scaled screen %s: %s" % (sorted(sizes_now - last_sizes), ob)
+            cut_pending = False
+            last_sizes = sizes_now
             seen, total = {}, 0
             for p in parts:
                 d, r = p.split(":")
